@@ -709,6 +709,11 @@ def gen_splitex(rng, quick, k):
     aux = {'say': say_script(rng.choice([1, 2, hh, hh + 1, rows - 2, rows + 2]), rng.choice([5, 8, cols - 1])),
            'up': up_script(rng.choice([1, 2, 3, hh, rows]), rng.choice([4, 7, cols - 1]))}
     wa = rng.chance(1, 2)
+    # every fourth program: a SECOND BUFFER in one of the windows (`:e g` after the split) and no edits at all, so that the text of both
+    # buffers is known: each window has to show a true window of ITS buffer at its own top (the tail of vi() repaints the other window
+    # through vi_switch(): `e! path` / `ew! path`, the saved row / top)
+    two = (k % 4 == 3)
+    lines2 = ['other %d' % (i + 1) + rng.choice(['', ' ' + ''.join(rng.choice('mnopqr ') for _ in range(rng.range(1, cols - 10))).rstrip()]) for i in range(rng.choice([hh + 1, 2 * hh + 3, 25]))]
 
     def printer():
         a = rng.range(1, max(1, n - 2))
@@ -731,6 +736,8 @@ def gen_splitex(rng, quick, k):
         A += moves()
     if rng.chance(1, 3):
         A += [b'\x17j']
+    if two:
+        A += [b':e g\n'] + moves()
     for rnd in range(rng.range(2, 3)):
         A += [printer()] + moves()
         t = rng.below(10)
@@ -740,9 +747,15 @@ def gen_splitex(rng, quick, k):
             A += [b'\x17x'] + moves()
         elif t < 7 and rnd:
             A += [b'\x17' + rng.choice([b'o', b'c'])] + moves() + [printer()] + moves() + [b'\x17s']
-        if rng.chance(1, 3):
+        if rng.chance(1, 3) and not two:
             A += [rng.choice([b'x', b'dd', b'oq' + ESC, b'J', b'yyp', b'rZ', b'u'])]
+        if two and rng.chance(1, 3):
+            A += [rng.choice([b':e f\n', b':e g\n'])] + moves()         # (not `:e #`: vi_switch() itself edits files, the alternate one moves)
     case = finish_case(rng, rows, cols, lines, [a for a in A if a], 'splitex', quick, ['se wa'] if wa else [])
+    if two:
+        case['name'] = 'f'
+        aux['g'] = ''.join(l + '\n' for l in lines2)
+        case['file2'] = {'name': 'g', 'lines': lines2}
     case['aux'] = aux
     case['mid'] = []            # no probe points inside inserts (the other split stream has them): see streams_agree
     return case
@@ -1091,6 +1104,33 @@ def layout_after(case, i):
     return split, act
 
 
+def files_after(case, i):
+    """(file shown by the active window, file shown by the other one, the alternate file `#`) after the first i commands of a program
+    with a second buffer: `:e name` / `:e #` change the active window's file, ^Ws copies it, ^Wj / ^Wk exchange the roles, ^Wx moves the
+    windows but not the roles, ^Wo keeps the active one, ^Wc the other one"""
+    af = of = case.get('name', 'f')
+    alt = None
+    split = False
+    for a in case['atoms'][:i]:
+        b = bytes.fromhex(a)
+        k = win_cmd(b)
+        if k == b's' and not split:
+            split, of = True, af
+        elif k in (b'j', b'k') and split:
+            af, of = of, af
+        elif k == b'o' and split:
+            split = False
+        elif k == b'c' and split:
+            split, af = False, of
+        elif b[:3] == b':e ' and b.endswith(b'\n'):
+            name = b[3:-1].decode('latin-1')
+            if name == '#':
+                name = alt
+            if name and name != af:
+                alt, af = af, name
+    return af, (of if split else af)
+
+
 def geometry(rows, split, act):
     """((first row, text rows) of the active window, the same of the inactive one or None)"""
     if not split:
@@ -1355,6 +1395,14 @@ def judge(case, pr, runs, snaps, prev=None):
     buf, xrow, xoff = tw
     st, st2 = snaps
     out = {'status': 'ok', 'buf': buf, 'xrow': xrow, 'xoff': xoff, 'st': st, 'split': split, 'act': act, 'td': REF.td}
+    obuf = buf                  # the buffer of the OTHER window
+    if case.get('file2'):
+        texts = {case.get('name', 'f'): case['lines'], case['file2']['name']: case['file2']['lines']}
+        af, of = files_after(case, i)
+        if texts.get(af) != buf:
+            return {'status': 'skip', 'what': 'two buffers: the active buffer is not the one the reference tracks'}
+        obuf = texts[of]
+        out['two_buffers'] = af != of
     if st['err'] or (st2 and st2['err']):
         out.update(status='fail', what='the stream contains a sequence the terminal model does not know, or text past the right margin',
                    observed={'errors': st['err'] + (st2['err'] if st2 else 0)}, expected={'errors': 0})
@@ -1372,7 +1420,7 @@ def judge(case, pr, runs, snaps, prev=None):
         alt = (not ins) and is_alt(last, split_before)
         out['alt'] = alt
         if alt:
-            if renderable(buf) and not lower_window_ok(low, buf, cols):
+            if renderable(obuf) and not lower_window_ok(low, obuf, cols):
                 out.update(status='fail', what='split windows: after a command that repaints both windows the rows of the inactive window are not a window of the buffer lines',
                            observed=[cells_str(r) for r in st['cp'][:rows]], expected='inactive window: rows [%d, %d) show consecutive buffer lines' % (ioff, ioff + ih))
                 return out
@@ -1386,7 +1434,7 @@ def judge(case, pr, runs, snaps, prev=None):
                 out.update(status='fail', what='split windows: a command in the active window changed the rows of the inactive window',
                            observed=[cells_str(r) for r in low], expected=[cells_str(r) for r in was])
                 return out
-        if st2 and renderable(buf) and not lower_window_ok(st2['cp'][ioff:ioff + ih], buf, cols):
+        if st2 and renderable(obuf) and not lower_window_ok(st2['cp'][ioff:ioff + ih], obuf, cols):
             out.update(status='fail', what='split windows: after a forced full repaint (^L) the rows of the inactive window are not a window of the buffer lines',
                        observed=[cells_str(r) for r in st2['cp'][:rows]], expected='inactive window: rows [%d, %d) show consecutive buffer lines' % (ioff, ioff + ih))
             return out
@@ -1671,6 +1719,8 @@ def run(ctx):
                 res.count('split: lower window active')
             if r.get('alt'):
                 res.count('split: inactive window judged after a both-window repaint')
+            if r.get('two_buffers'):
+                res.count('split: the two windows show different buffers')
         if r.get('left'):
             res.count('states with left > 0')
         if r.get('buf') and r.get('top') is not None:
